@@ -7,6 +7,14 @@
 //!                                 the bytes handed to the `BufDnsStreamHandle`, for a request that
 //!                                 advertised EDNS payload `adv` (`-` = no EDNS)
 //!   rt   <hex>                    `from_vec` → `to_vec` → `from_vec`
+//!   rtok / undec <hex>            as `rt`, but the octets MUST decode / MUST be refused
+//!   asm  <hex> <hash>             a message assembled from values must decode, after encoding, to itself
+//!   svcbenc / ednsrc / tsnew      values built through the public constructors, encoded (see the arms)
+//!   respb <how> <udp|tcp> <adv|-> <hex>   `resp` through the other builder entry points (`run_resp_bytes`)
+//!   badrec <kind> <sec> <nb> <na> <L<limit>|udp:<adv>|tcp:<adv>>   a message holding a record that cannot be
+//!                                 encoded for a reason other than size (`bad_message`)
+//!   cat <proto> <adv|-> <DO> <version> <nsid|-> <nrec> <rlen> <qname> <qtype> <op>   the whole server path
+//!                                 through the real `Catalog::handle_request` (`run_catalog`; implementation only)
 use std::net::SocketAddr;
 
 use futures_util::{FutureExt, StreamExt};
@@ -192,7 +200,7 @@ pub struct MsgVerdict {
     pub len: usize,
 }
 
-fn run_resp(rt: &tokio::runtime::Runtime, m: &Message, proto: Protocol, adv: Option<u16>) -> Result<Option<Vec<u8>>, String> {
+fn run_resp(rt: &tokio::runtime::Runtime, m: &Message, proto: Protocol, adv: Option<u16>, how: &str) -> Result<Option<Vec<u8>>, String> {
     // the request the response answers: same id and question, EDNS payload `adv`
     let mut req = Message::query();
     req.metadata.id = m.metadata.id;
@@ -207,13 +215,17 @@ fn run_resp(rt: &tokio::runtime::Runtime, m: &Message, proto: Protocol, adv: Opt
         bytes.extend(p.to_be_bytes());
         bytes.extend([0u8, 0, 0, 0, 0, 0]);
         bytes[11] = 1;
-        return run_resp_bytes(rt, m, proto, bytes);
+        return run_resp_bytes(rt, m, proto, bytes, how);
     }
     let bytes = req.to_vec().map_err(|e| e.to_string())?;
-    run_resp_bytes(rt, m, proto, bytes)
+    run_resp_bytes(rt, m, proto, bytes, how)
 }
 
-fn run_resp_bytes(rt: &tokio::runtime::Runtime, m: &Message, proto: Protocol, req_bytes: Vec<u8>) -> Result<Option<Vec<u8>>, String> {
+/// `how` selects the public way the `MessageResponse` is put together: `std` (`from_message_request` +
+/// `build` + `set_edns`), `new` (`MessageResponseBuilder::new(queries, edns)`), `edns` (the builder's
+/// `edns()` setter), `noq` (`no_queries`), `norec` (`build_no_records`), `noq-norec`, `errmsg:<code>`
+/// (`error_msg(request metadata, code)`), `noq-errmsg:<code>`
+fn run_resp_bytes(rt: &tokio::runtime::Runtime, m: &Message, proto: Protocol, req_bytes: Vec<u8>, how: &str) -> Result<Option<Vec<u8>>, String> {
     let src: SocketAddr = "127.0.0.1:5353".parse().unwrap();
     let request = Request::from_bytes(req_bytes, src, proto).map_err(|e| format!("request: {e}"))?;
     // what `Catalog::handle_request` does with the request's EDNS (zone_handler/catalog.rs)
@@ -224,30 +236,57 @@ fn run_resp_bytes(rt: &tokio::runtime::Runtime, m: &Message, proto: Protocol, re
         e.set_version(0);
         e
     });
-    let mut response = MessageResponseBuilder::from_message_request(&request).build(
-        m.metadata,
-        m.answers.iter(),
-        m.authorities.iter(),
-        std::iter::empty::<&Record>(),
-        m.additionals.iter(),
-    );
-    if let Some(e) = resp_edns.as_ref() {
-        response.set_edns(e);
-    }
-    if let Some(sig) = &m.signature {
-        response.set_signature(sig.clone());
-    }
     let (handle, mut rx) = BufDnsStreamHandle::new(src);
     let mut rh = ResponseHandle::new(src, handle, proto);
-    let sent = rt.block_on(async move {
-        let r = rh.send_response(response).await;
-        drop(rh);
-        let mut out = vec![];
-        while let Some(Some(x)) = rx.next().now_or_never() {
-            out.push(x.into_parts().0);
+    let none = || std::iter::empty::<&Record>();
+    // (every arm builds a different concrete `MessageResponse` type, so each sends its own)
+    macro_rules! send {
+        ($resp:expr, $set_edns:expr) => {{
+            let mut response = $resp;
+            if $set_edns {
+                if let Some(e) = resp_edns.as_ref() {
+                    response.set_edns(e);
+                }
+            }
+            if let Some(sig) = &m.signature {
+                response.set_signature(sig.clone());
+            }
+            rt.block_on(async {
+                let r = rh.send_response(response).await;
+                r.is_ok()
+            })
+        }};
+    }
+    let (base, code) = match how.split_once(':') {
+        Some((b, c)) => (b, c.parse::<u16>().map_err(|e| e.to_string())?),
+        None => (how, 0),
+    };
+    let rc = hickory_proto::op::ResponseCode::from((code >> 4) as u8, (code & 15) as u8);
+    let ok = match base {
+        "std" => send!(MessageResponseBuilder::from_message_request(&request).build(m.metadata, m.answers.iter(), m.authorities.iter(), none(), m.additionals.iter()), true),
+        "new" => send!(MessageResponseBuilder::new(&request.queries, resp_edns.as_ref()).build(m.metadata, m.answers.iter(), m.authorities.iter(), none(), m.additionals.iter()), false),
+        "edns" => {
+            let mut b = MessageResponseBuilder::from_message_request(&request);
+            if let Some(e) = resp_edns.as_ref() {
+                b.edns(e);
+            }
+            send!(b.build(m.metadata, m.answers.iter(), m.authorities.iter(), none(), m.additionals.iter()), false)
         }
-        (r.is_ok(), out)
-    });
+        // the authority section handed over as `soa` (the fourth iterator is chained behind the authorities)
+        "soa" => send!(MessageResponseBuilder::from_message_request(&request).build(m.metadata, m.answers.iter(), none(), m.authorities.iter(), m.additionals.iter()), true),
+        "noq" => send!(MessageResponseBuilder::no_queries(resp_edns.as_ref()).build(m.metadata, m.answers.iter(), m.authorities.iter(), none(), m.additionals.iter()), false),
+        "norec" => send!(MessageResponseBuilder::from_message_request(&request).build_no_records(m.metadata), true),
+        "noq-norec" => send!(MessageResponseBuilder::no_queries(resp_edns.as_ref()).build_no_records(m.metadata), false),
+        "errmsg" => send!(MessageResponseBuilder::from_message_request(&request).error_msg(&request.metadata, rc), true),
+        "noq-errmsg" => send!(MessageResponseBuilder::no_queries(resp_edns.as_ref()).error_msg(&request.metadata, rc), false),
+        _ => return Err(format!("unknown response builder variant {how}")),
+    };
+    drop(rh);
+    let mut out = vec![];
+    while let Some(Some(x)) = rx.next().now_or_never() {
+        out.push(x.into_parts().0);
+    }
+    let sent = (ok, out);
     match sent {
         (true, mut v) if v.len() == 1 => Ok(Some(v.remove(0))),
         (false, v) if v.is_empty() => Ok(None),
@@ -257,6 +296,313 @@ fn run_resp_bytes(rt: &tokio::runtime::Runtime, m: &Message, proto: Protocol, re
 
 thread_local! {
     static RT: tokio::runtime::Runtime = tokio::runtime::Builder::new_current_thread().enable_all().build().unwrap();
+}
+
+/// One response through `ResponseHandle::send_response`, judged: never longer than the property's bound
+/// (UDP max(512, advertised), TCP 65535), decodes with nothing left over, and is either the header-only
+/// SERVFAIL of the fallback path or a truncation of what the builder variant `how` was given.
+fn resp_case(m: &Message, how: &str, proto: &str, adv: Option<u16>, fails: &mut Vec<String>) -> Option<(String, (usize, usize, usize))> {
+    let (p, tcp) = match proto {
+        "udp" => (Protocol::Udp, false),
+        "tcp" => (Protocol::Tcp, true),
+        _ => return None,
+    };
+    // the property's bound: UDP max(512, advertised), TCP 65535
+    let bound = if tcp { 65535 } else { adv.map(|a| a.max(512) as usize).unwrap_or(512) };
+    let r = RT.with(|rt| run_resp(rt, m, p, adv, how));
+    let (mut n_tr, mut n_err, mut n_full) = (0, 0, 0);
+    let out = match r {
+        Ok(Some(b)) => {
+            if b.len() > bound {
+                fails.push(format!("server sent {} octets over {proto}, more than {bound}", b.len()));
+            }
+            // the response the client must be able to read: same clauses as for Message::emit,
+            // against the response's content (EDNS is the server's own)
+            let mut want = m.clone();
+            // the EDNS of the response is the server's own, derived from the request's
+            want.edns = adv.map(|a| {
+                let mut e = Edns::new();
+                e.set_max_payload(a.max(512));
+                e
+            });
+            let base = how.split(':').next().unwrap_or("");
+            if base.starts_with("noq") {
+                want.queries.clear();
+            }
+            if base.ends_with("norec") || base.ends_with("errmsg") {
+                want.answers.clear();
+                want.authorities.clear();
+                want.additionals.clear();
+            }
+            if base.ends_with("errmsg") {
+                // Metadata::response_from_request(request) + the code; the request is the one `run_resp` makes
+                let code: u16 = how.split(':').nth(1).and_then(|c| c.parse().ok()).unwrap_or(0);
+                let mut md = hickory_proto::op::Metadata::new(m.metadata.id, hickory_proto::op::MessageType::Response, hickory_proto::op::OpCode::Query);
+                md.recursion_desired = m.metadata.recursion_desired;
+                md.response_code = hickory_proto::op::ResponseCode::from((code >> 4) as u8, (code & 15) as u8);
+                want.metadata = md;
+                if let Some(e) = want.edns.as_mut() {
+                    e.set_rcode_high((code >> 4) as u8);
+                }
+                if want.edns.is_none() {
+                    // without an OPT record the high bits cannot be carried
+                    want.metadata.response_code = hickory_proto::op::ResponseCode::from(0, (code & 15) as u8);
+                }
+            }
+            let mut d = BinDecoder::new(&b);
+            match Message::read(&mut d) {
+                Ok(dec) => {
+                    if !d.is_empty() {
+                        fails.push(format!("{} octets left over after decoding the response", d.len()));
+                    }
+                    let is_fallback = b.len() == 12 && dec.metadata.response_code == hickory_proto::op::ResponseCode::ServFail && dec.metadata.id == m.metadata.id && !(want.queries.is_empty() && want.metadata.response_code == hickory_proto::op::ResponseCode::ServFail);
+                    if is_fallback {
+                        n_err += 1;
+                    } else if judge_truncation(&want, &b, bound, "MessageResponse::encode", fails) {
+                        n_tr += 1;
+                    } else {
+                        n_full += 1;
+                    }
+                }
+                Err(e) => fails.push(format!("response does not decode: {e}")),
+            }
+            format!("ok {}", hex(&b))
+        }
+        Ok(None) => {
+            n_err += 1;
+            "err".into()
+        }
+        Err(e) => {
+            fails.push(e);
+            "err".into()
+        }
+    };
+    Some((out, (n_tr, n_err, n_full)))
+}
+
+/// The typed views of a record (`RecordData::{try_borrow, record_type, into_rdata}` of every RDATA type,
+/// `Record::try_borrow`, `RecordRef::to_owned`, `Record<T>::into_record_of_rdata`, and `Record<T>::emit`,
+/// which takes the TYPE field from `T::record_type()`): the typed record is the same record and encodes
+/// to the same octets as the generic one.
+fn typed_views(r: &Record, fails: &mut Vec<String>) {
+    use hickory_proto::dnssec::rdata::{CDNSKEY, CDS, DNSKEY, DS, KEY, NSEC, NSEC3, NSEC3PARAM, RRSIG, SIG};
+    use hickory_proto::rr::rdata::{A, AAAA, ANAME, CAA, CERT, CNAME, CSYNC, HINFO, HTTPS, MX, NAPTR, NS, NULL, OPENPGPKEY, PTR, SMIMEA, SOA, SRV, SSHFP, SVCB, TLSA, TXT};
+    use hickory_proto::rr::RecordData;
+    fn check<T: RecordData + Clone + PartialEq + std::fmt::Debug>(x: &T, r: &Record, fails: &mut Vec<String>) {
+        let what = r.record_type();
+        if T::try_borrow(&r.data) != Some(x) {
+            fails.push(format!("{what}: RecordData::try_borrow does not give the variant's value"));
+        }
+        if x.record_type() != what {
+            fails.push(format!("{what}: the typed value reports record type {}", x.record_type()));
+        }
+        if x.clone().into_rdata() != r.data {
+            fails.push(format!("{what}: into_rdata() differs from the RData it was borrowed from"));
+        }
+        match r.try_borrow::<T>() {
+            Some(view) => {
+                if view.name() != &r.name || view.dns_class() != r.dns_class || view.data() != x {
+                    fails.push(format!("{what}: RecordRef differs from the record"));
+                }
+                let typed: Record<T> = view.to_owned();
+                let (mut a, mut b) = (vec![], vec![]);
+                let ra = typed.emit(&mut BinEncoder::new(&mut a));
+                let rb = r.emit(&mut BinEncoder::new(&mut b));
+                if ra.is_ok() != rb.is_ok() || a != b {
+                    fails.push(format!("{what}: the typed record encodes to {} but the generic one to {}", hex(&a), hex(&b)));
+                }
+                if &typed.into_record_of_rdata() != r {
+                    fails.push(format!("{what}: into_record_of_rdata() differs from the record"));
+                }
+            }
+            None => fails.push(format!("{what}: Record::try_borrow::<T>() is None")),
+        }
+    }
+    match &r.data {
+        RData::A(x) => check::<A>(x, r, fails),
+        RData::AAAA(x) => check::<AAAA>(x, r, fails),
+        RData::ANAME(x) => check::<ANAME>(x, r, fails),
+        RData::CAA(x) => check::<CAA>(x, r, fails),
+        RData::CERT(x) => check::<CERT>(x, r, fails),
+        RData::CNAME(x) => check::<CNAME>(x, r, fails),
+        RData::CSYNC(x) => check::<CSYNC>(x, r, fails),
+        RData::HINFO(x) => check::<HINFO>(x, r, fails),
+        RData::HTTPS(x) => check::<HTTPS>(x, r, fails),
+        RData::MX(x) => check::<MX>(x, r, fails),
+        RData::NAPTR(x) => check::<NAPTR>(x, r, fails),
+        RData::NULL(x) => check::<NULL>(x, r, fails),
+        RData::NS(x) => check::<NS>(x, r, fails),
+        RData::OPENPGPKEY(x) => check::<OPENPGPKEY>(x, r, fails),
+        RData::PTR(x) => check::<PTR>(x, r, fails),
+        RData::SMIMEA(x) => check::<SMIMEA>(x, r, fails),
+        RData::SOA(x) => check::<SOA>(x, r, fails),
+        RData::SRV(x) => check::<SRV>(x, r, fails),
+        RData::SSHFP(x) => check::<SSHFP>(x, r, fails),
+        RData::SVCB(x) => check::<SVCB>(x, r, fails),
+        RData::TLSA(x) => check::<TLSA>(x, r, fails),
+        RData::TXT(x) => check::<TXT>(x, r, fails),
+        RData::DNSSEC(DNSSECRData::CDNSKEY(x)) => check::<CDNSKEY>(x, r, fails),
+        RData::DNSSEC(DNSSECRData::CDS(x)) => check::<CDS>(x, r, fails),
+        RData::DNSSEC(DNSSECRData::DNSKEY(x)) => check::<DNSKEY>(x, r, fails),
+        RData::DNSSEC(DNSSECRData::DS(x)) => check::<DS>(x, r, fails),
+        RData::DNSSEC(DNSSECRData::KEY(x)) => check::<KEY>(x, r, fails),
+        RData::DNSSEC(DNSSECRData::NSEC(x)) => check::<NSEC>(x, r, fails),
+        RData::DNSSEC(DNSSECRData::NSEC3(x)) => check::<NSEC3>(x, r, fails),
+        RData::DNSSEC(DNSSECRData::NSEC3PARAM(x)) => check::<NSEC3PARAM>(x, r, fails),
+        RData::DNSSEC(DNSSECRData::RRSIG(x)) => check::<RRSIG>(x, r, fails),
+        RData::DNSSEC(DNSSECRData::SIG(x)) => check::<SIG>(x, r, fails),
+        _ => {}
+    }
+}
+
+/// One request through the real `Catalog::handle_request` (zone_handler/catalog.rs) over an in-memory
+/// zone `example.com.` that holds, besides SOA / NS / glue / `www`, `nrec` TXT records of `rlen` octets at
+/// `big.example.com.`; `nsid` = length of the configured NSID payload (the request then asks for it).
+/// Returns the octets handed to the stream.
+#[allow(clippy::too_many_arguments)]
+fn run_catalog(proto: Protocol, adv: Option<u16>, dok: bool, ver: u8, nsid: Option<usize>, nrec: usize, rlen: usize, q: &str, qtype: u16, op: &str) -> Result<Vec<Vec<u8>>, String> {
+    use hickory_net::runtime::{TokioRuntimeProvider, TokioTime};
+    use hickory_proto::rr::rdata::opt::NSIDPayload;
+    use hickory_proto::rr::rdata::{A, NS, SOA, TXT};
+    use hickory_proto::rr::{LowerName, Name};
+    use hickory_server::server::RequestHandler;
+    use hickory_server::store::in_memory::InMemoryZoneHandler;
+    use hickory_server::zone_handler::{AxfrPolicy, Catalog, ZoneHandler, ZoneType};
+    use std::sync::Arc;
+    let nm = |s: &str| Name::from_ascii(s).unwrap();
+    let o = nm("example.com.");
+    let mut z = InMemoryZoneHandler::<TokioRuntimeProvider>::empty(o.clone(), ZoneType::Primary, AxfrPolicy::AllowAll, None);
+    z.upsert_mut(Record::from_rdata(o.clone(), 3600, RData::SOA(SOA::new(nm("ns.example.com."), nm("admin.example.com."), 20260101, 7200, 3600, 360000, 60))), 0);
+    z.upsert_mut(Record::from_rdata(o.clone(), 3600, RData::NS(NS(nm("ns.example.com.")))), 0);
+    z.upsert_mut(Record::from_rdata(nm("ns.example.com."), 3600, RData::A(A::new(192, 0, 2, 1))), 0);
+    z.upsert_mut(Record::from_rdata(nm("www.example.com."), 300, RData::A(A::new(192, 0, 2, 80))), 0);
+    // a delegation (referral) and a wildcard
+    z.upsert_mut(Record::from_rdata(nm("sub.example.com."), 3600, RData::NS(NS(nm("ns.sub.example.com.")))), 0);
+    z.upsert_mut(Record::from_rdata(nm("ns.sub.example.com."), 3600, RData::A(A::new(192, 0, 2, 53))), 0);
+    z.upsert_mut(Record::from_rdata(nm("*.wild.example.com."), 300, RData::TXT(TXT::from_bytes(vec![&b"wildcard"[..]]))), 0);
+    for i in 0..nrec {
+        let mut d = vec![b'a' + (i % 26) as u8; rlen];
+        if rlen >= 2 {
+            d[0] = (i >> 8) as u8;
+            d[1] = i as u8;
+        }
+        z.upsert_mut(Record::from_rdata(nm("big.example.com."), 300, RData::TXT(TXT::from_bytes(vec![&d[..]]))), 0);
+    }
+    let mut catalog = Catalog::new();
+    let h: Arc<dyn ZoneHandler> = Arc::new(z);
+    catalog.upsert(LowerName::new(&o), vec![h]);
+    if let Some(n) = nsid {
+        catalog.set_nsid(Some(NSIDPayload::new(vec![0x4E; n]).map_err(|e| e.to_string())?));
+    }
+    // the request, written by hand
+    let qname: Vec<u8> = match q {
+        "big" => b"\x03big\x07example\x03com\x00".to_vec(),
+        "www" => b"\x03www\x07example\x03com\x00".to_vec(),
+        "nx" => b"\x04nope\x07example\x03com\x00".to_vec(),
+        "apex" => b"\x07example\x03com\x00".to_vec(),
+        "out" => b"\x05other\x03org\x00".to_vec(),
+        "ref" => b"\x01x\x03sub\x07example\x03com\x00".to_vec(),
+        "wild" => b"\x01x\x04wild\x07example\x03com\x00".to_vec(),
+        _ => return Err("unknown query name".into()),
+    };
+    let (qr, opcode): (u8, u8) = match op {
+        "q" => (0, 0),
+        "u" => (0, 5),
+        "s" => (0, 2),
+        "n" => (0, 4),
+        "r" => (1, 0),
+        _ => return Err("unknown op".into()),
+    };
+    let mut b = vec![0x51, 0x51, (qr << 7) | (opcode << 3) | 1, 0, 0, 1, 0, 0, 0, 0, 0, adv.is_some() as u8];
+    b.extend(&qname);
+    b.extend(qtype.to_be_bytes());
+    b.extend([0, 1]);
+    if let Some(a) = adv {
+        b.extend([0, 0, 41]);
+        b.extend(a.to_be_bytes());
+        b.extend([0, ver, (dok as u8) << 7, 0]);
+        if nsid.is_some() {
+            b.extend([0, 4, 0, 3, 0, 0]);
+        } else {
+            b.extend([0, 0]);
+        }
+    }
+    let src: SocketAddr = "127.0.0.1:5353".parse().unwrap();
+    let request = Request::from_bytes(b, src, proto).map_err(|e| format!("request: {e}"))?;
+    let (handle, mut rx) = BufDnsStreamHandle::new(src);
+    let rh = ResponseHandle::new(src, handle, proto);
+    RT.with(|rt| rt.block_on(catalog.handle_request::<_, TokioTime>(&request, rh)));
+    let mut out = vec![];
+    while let Some(Some(x)) = rx.next().now_or_never() {
+        out.push(x.into_parts().0);
+    }
+    Ok(out)
+}
+
+/// The message of a `badrec` line: id 0x4242, a response to `example. A`, `nb` encodable A records
+/// (`g<i>.example.`), the record of `kind` (owner `bad.example.`), `na` more A records, all in section
+/// `sec` (`an` / `ns` / `ar`); for `sec = sig` the record is the message's TSIG (`tsigtime`, `tsigmac`,
+/// `tsigother`, `good`) and the A records go to the answer section.
+pub fn bad_message(kind: &str, sec: &str, nb: usize, na: usize) -> Option<Message> {
+    use hickory_proto::op::{MessageType, OpCode};
+    use hickory_proto::rr::rdata::svcb::{Alpn, SvcParamKey, SvcParamValue, SVCB};
+    use hickory_proto::rr::rdata::tsig::{TsigAlgorithm, TSIG};
+    use hickory_proto::rr::rdata::{A, CAA, HINFO, NAPTR, TXT};
+    use hickory_proto::rr::{DNSClass, Name, RecordType};
+    let nm = |s: &str| Name::from_ascii(s).unwrap();
+    let mut m = Message::new(0x4242, MessageType::Response, OpCode::Query);
+    m.add_query(Query::new(nm("example."), RecordType::A));
+    let good = |i: usize| Record::from_rdata(nm(&format!("g{i}.example.")), 60, RData::A(A::new(192, 0, 2, i as u8)));
+    let long = vec![b'x'; 256];
+    if sec == "sig" {
+        let (time, mac, other): (u64, usize, usize) = match kind {
+            "tsigtime" => (1 << 48, 4, 0),
+            "tsigmac" => (1, 65536, 0),
+            "tsigother" => (1, 4, 65536),
+            "good" => ((1 << 48) - 1, 4, 0),
+            _ => return None,
+        };
+        for i in 0..nb + na {
+            m.add_answer(good(i));
+        }
+        let t = TSIG::new(TsigAlgorithm::HmacSha256, time, 300, vec![0xAB; mac], 0x4242, None, vec![0xCD; other]);
+        let mut sig = Record::from_rdata(nm("key.example."), 0, t);
+        sig.dns_class = DNSClass::ANY;
+        m.set_signature(Box::new(sig));
+        return Some(m);
+    }
+    let bad: RData = match kind {
+        "good" => RData::A(A::new(203, 0, 113, 1)),
+        "txt256" => RData::TXT(TXT::from_bytes(vec![&b"ok"[..], &long[..]])),
+        "hinfo256" => RData::HINFO(HINFO::from_bytes(long.clone().into_boxed_slice(), b"os".to_vec().into_boxed_slice())),
+        "naptr256" => RData::NAPTR(NAPTR::new(1, 2, b"U".to_vec().into_boxed_slice(), long.clone().into_boxed_slice(), vec![].into_boxed_slice(), nm("r.example."))),
+        "caatag256" => {
+            // (non-exhaustive struct: made by a constructor, then the public field is changed)
+            let mut c = CAA::new_issue(false, None, vec![]);
+            c.tag = "t".repeat(256);
+            RData::CAA(c)
+        }
+        "svcborder" => RData::SVCB(SVCB::new(1, nm("t.example."), vec![(SvcParamKey::Port, SvcParamValue::Port(443)), (SvcParamKey::Alpn, SvcParamValue::Alpn(Alpn(vec!["h2".to_string()])))])),
+        "alpn0" => RData::SVCB(SVCB::new(1, nm("t.example."), vec![(SvcParamKey::Alpn, SvcParamValue::Alpn(Alpn(vec![])))])),
+        "mandatory0" => RData::SVCB(SVCB::new(1, nm("t.example."), vec![(SvcParamKey::Mandatory, SvcParamValue::Mandatory(hickory_proto::rr::rdata::svcb::Mandatory(vec![])))])),
+        _ => return None,
+    };
+    let mut recs: Vec<Record> = (0..nb).map(good).collect();
+    recs.push(Record::from_rdata(nm("bad.example."), 60, bad));
+    recs.extend((nb..nb + na).map(good));
+    match sec {
+        "an" => {
+            m.insert_answers(recs);
+        }
+        "ns" => {
+            m.insert_authorities(recs);
+        }
+        "ar" => {
+            m.insert_additionals(recs);
+        }
+        _ => return None,
+    }
+    Some(m)
 }
 
 pub fn run_line(t: &[&str]) -> Option<MsgVerdict> {
@@ -360,10 +706,40 @@ pub fn run_line(t: &[&str]) -> Option<MsgVerdict> {
             e.set_max_payload(payload);
             let mut m = Message::new(4369, MessageType::Response, OpCode::Query);
             m.metadata.response_code = ResponseCode::from(high, low);
-            m.set_edns(e);
+            // the second encoder of the same value, `impl BinEncodable for Edns`: must write exactly what
+            // `Record::from(&edns)` emits, and that must read back (`Record::read`, `Edns::from`) as the value
+            let mut direct = String::from("-");
+            if *via != "n" {
+                let mut eb = vec![];
+                let r1 = e.emit(&mut BinEncoder::new(&mut eb));
+                let mut rb = vec![];
+                let r2 = Record::from(&e).emit(&mut BinEncoder::new(&mut rb));
+                if r1.is_err() || r2.is_err() || eb != rb {
+                    fails.push(format!("Edns::emit wrote {} but the OPT record made from the same Edns encodes to {}", hex(&eb), hex(&rb)));
+                }
+                match Record::read(&mut BinDecoder::new(&eb)) {
+                    Ok(rec) => {
+                        let back = Edns::from(&rec);
+                        if back != e {
+                            fails.push(format!("Edns::emit then Record::read + Edns::from gives {} for {}", show_edns(Some(&back)), show_edns(Some(&e))));
+                        }
+                    }
+                    Err(x) => fails.push(format!("what Edns::emit wrote does not read as a record: {x}")),
+                }
+                direct = hex(&eb);
+                m.set_edns(e);
+            }
             let out = match m.to_vec() {
                 Ok(b) => {
                     match Message::from_vec(&b) {
+                        Ok(m2) if *via == "n" => {
+                            // no Edns value: the high bits cannot be carried (emit logs a warning); the low
+                            // four bits come back, and no OPT record appears
+                            let got = u16::from(m2.metadata.response_code);
+                            if got != low as u16 || m2.edns.is_some() {
+                                fails.push(format!("response code (high {high}, low {low}) without an Edns decodes, after encoding, to {got} (edns {})", m2.edns.is_some()));
+                            }
+                        }
                         Ok(m2) => {
                             let want = u16::from(ResponseCode::from(high, low));
                             let got = u16::from(m2.metadata.response_code);
@@ -381,7 +757,7 @@ pub fn run_line(t: &[&str]) -> Option<MsgVerdict> {
                         }
                         Err(e) => fails.push(format!("the encoding does not decode: {e}")),
                     }
-                    format!("ok {}", hex(&b))
+                    format!("ok {} E:{direct}", hex(&b))
                 }
                 Err(_) => "err".into(),
             };
@@ -470,73 +846,153 @@ pub fn run_line(t: &[&str]) -> Option<MsgVerdict> {
             let out = if msg_modelled(&m) { outs.join("|") } else { "~".into() };
             Some(MsgVerdict { out, fails, class: "", n_limits: ls.len(), n_truncated: n_tr, n_err, n_full, kind: "msg", len: bytes.len() })
         }
-        ["resp", proto, adv, hx] => {
+        ["resp", proto, adv, hx] => run_line(&["respb", "std", proto, adv, hx]),
+        ["respb", how, proto, adv, hx] => {
             let bytes = unhex(hx)?;
+            let adv: Option<u16> = if *adv == "-" { None } else { Some(adv.parse().ok()?) };
+            let m = Message::from_vec(&bytes).ok()?;
+            if m.queries.len() != 1 {
+                return None;
+            }
+            let (out, (n_tr, n_err, n_full)) = resp_case(&m, how, proto, adv, &mut fails)?;
+            let out = if msg_modelled(&m) { out } else { "~".into() };
+            let kind = match (*how, *proto) {
+                ("std", "tcp") => "resp.tcp",
+                ("std", _) => "resp.udp",
+                _ => "respb",
+            };
+            Some(MsgVerdict { out, fails, class: "", n_limits: 1, n_truncated: n_tr, n_err, n_full, kind, len: bytes.len() })
+        }
+        ["cat", proto, adv, dok, ver, nsid, nrec, rlen, q, qtype, op] => {
+            // the whole server path: request octets -> Catalog::handle_request -> ResponseHandle.  Judged
+            // against the SAME request sent over TCP (limit 65535): never longer than the bound, decodes
+            // with nothing left over, sections are prefixes, TC set exactly when something was dropped
             let (p, tcp) = match *proto {
                 "udp" => (Protocol::Udp, false),
                 "tcp" => (Protocol::Tcp, true),
                 _ => return None,
             };
             let adv: Option<u16> = if *adv == "-" { None } else { Some(adv.parse().ok()?) };
-            let m = Message::from_vec(&bytes).ok()?;
-            if m.queries.len() != 1 {
-                return None;
-            }
-            // the property's bound: UDP max(512, advertised), TCP 65535
+            let nsid: Option<usize> = if *nsid == "-" { None } else { Some(nsid.parse().ok()?) };
+            let (dok, ver): (bool, u8) = (*dok == "1", ver.parse().ok()?);
+            let (nrec, rlen, qtype): (usize, usize, u16) = (nrec.parse().ok()?, rlen.parse().ok()?, qtype.parse().ok()?);
             let bound = if tcp { 65535 } else { adv.map(|a| a.max(512) as usize).unwrap_or(512) };
-            let r = RT.with(|rt| run_resp(rt, &m, p, adv));
             let (mut n_tr, mut n_err, mut n_full) = (0, 0, 0);
-            let out = match r {
-                Ok(Some(b)) => {
-                    if b.len() > bound {
-                        fails.push(format!("server sent {} octets over {proto}, more than {bound}", b.len()));
-                    }
-                    // the response the client must be able to read: same clauses as for Message::emit,
-                    // against the response's content (EDNS is the server's own)
-                    let mut want = m.clone();
-                    // the EDNS of the response is the server's own, derived from the request's
-                    want.edns = adv.map(|a| {
-                        let mut e = Edns::new();
-                        e.set_max_payload(a.max(512));
-                        e
-                    });
-                    let mut d = BinDecoder::new(&b);
-                    match Message::read(&mut d) {
-                        Ok(dec) => {
-                            if !d.is_empty() {
-                                fails.push(format!("{} octets left over after decoding the response", d.len()));
-                            }
-                            let is_fallback = b.len() == 12 && dec.metadata.response_code == hickory_proto::op::ResponseCode::ServFail && m.queries.len() == 1;
-                            if is_fallback {
-                                n_err += 1;
-                            } else {
-                                if judge_truncation(&want, &b, bound, "MessageResponse::encode", &mut fails) {
+            let run = |p: Protocol| catch(|| run_catalog(p, adv, dok, ver, nsid, nrec, rlen, q, qtype, op));
+            match (run(p), run(Protocol::Tcp)) {
+                (Ok(Ok(sent)), Ok(Ok(full))) => {
+                    if sent.len() != 1 || full.len() != 1 {
+                        fails.push(format!("{} messages were handed to the stream ({} over TCP), expected one", sent.len(), full.len()));
+                    } else {
+                        let (b, f) = (&sent[0], &full[0]);
+                        if std::env::var("HK_DEBUG").is_ok() {
+                            eprintln!("cat: {} octets over {proto} (flags {:02x}{:02x}, counts {:?}), {} over TCP", b.len(), b[2], b[3], &b[4..12], f.len());
+                        }
+                        if b.len() > bound {
+                            fails.push(format!("server sent {} octets over {proto}, more than {bound}", b.len()));
+                        }
+                        if b.len() < 2 || b[..2] != [0x51, 0x51] {
+                            fails.push("the response does not carry the request's id".into());
+                        }
+                        match Message::from_vec(f) {
+                            Ok(fm) => {
+                                let is_fallback = b.len() == 12 && b[3] & 15 == 2 && f.len() != 12;
+                                if is_fallback {
+                                    n_err += 1;
+                                } else if judge_truncation(&fm, b, bound, "Catalog::handle_request", &mut fails) {
                                     n_tr += 1;
                                 } else {
                                     n_full += 1;
                                 }
                             }
+                            Err(e) => fails.push(format!("the response over TCP does not decode: {e}")),
                         }
-                        Err(e) => fails.push(format!("response does not decode: {e}")),
                     }
-                    format!("ok {}", hex(&b))
                 }
-                Ok(None) => {
-                    n_err += 1;
-                    "err".into()
+                (Ok(Err(e)), _) | (_, Ok(Err(e))) => {
+                    // (a request the server's own parser refuses is not a case)
+                    if std::env::var("HK_DEBUG").is_ok() {
+                        eprintln!("cat: {e}");
+                    }
+                    return None;
                 }
-                Err(e) => {
-                    fails.push(e);
-                    "err".into()
-                }
-            };
-            let out = if msg_modelled(&m) { out } else { "~".into() };
-            Some(MsgVerdict { out, fails, class: "", n_limits: 1, n_truncated: n_tr, n_err, n_full, kind: if tcp { "resp.tcp" } else { "resp.udp" }, len: bytes.len() })
+                (Err(pn), _) | (_, Err(pn)) => fails.push(format!("panic in Catalog::handle_request: {pn}")),
+            }
+            Some(MsgVerdict { out: "~".into(), fails, class: "", n_limits: 1, n_truncated: n_tr, n_err, n_full, kind: "cat", len: nrec * rlen })
+        }
+        ["badrec", kind, sec, nb, na, mode] => {
+            // a message built from VALUES, one of whose records cannot be encoded (for a reason other than
+            // the size limit): `Message::emit` under a limit (`L<n>`), or the server's response path
+            let (nb, na): (usize, usize) = (nb.parse().ok()?, na.parse().ok()?);
+            let m = bad_message(kind, sec, nb, na)?;
+            let bad = *kind != "good";
+            if let Some(l) = mode.strip_prefix('L') {
+                let l: u16 = l.parse().ok()?;
+                let (mut n_tr, mut n_err, mut n_full) = (0, 0, 0);
+                let out = match catch(|| emit_limited(&m, l)) {
+                    Ok(Ok(b)) => {
+                        if bad && l == 65535 {
+                            fails.push(format!("a message holding an unencodable record ({kind}) was encoded to {} octets", b.len()));
+                        }
+                        if judge_truncation(&m, &b, l as usize, "Message::emit", &mut fails) {
+                            n_tr += 1;
+                        } else {
+                            n_full += 1;
+                        }
+                        format!("ok {}", hex(&b))
+                    }
+                    Ok(Err(_)) => {
+                        if !bad && l == 65535 {
+                            fails.push("the control message (only encodable records) was refused".into());
+                        }
+                        n_err += 1;
+                        "err".into()
+                    }
+                    Err(p) => {
+                        fails.push(format!("panic: {p}"));
+                        "panic".into()
+                    }
+                };
+                return Some(MsgVerdict { out, fails, class: "", n_limits: 1, n_truncated: n_tr, n_err, n_full, kind: "badrec", len: 0 });
+            }
+            let (proto, adv) = mode.split_once(':')?;
+            let adv: Option<u16> = if adv == "-" { None } else { Some(adv.parse().ok()?) };
+            let (out, (n_tr, n_err, n_full)) = resp_case(&m, "std", proto, adv, &mut fails)?;
+            if bad && proto == "tcp" && n_err == 0 {
+                fails.push(format!("a response holding an unencodable record ({kind}) was sent over TCP as something other than the header-only SERVFAIL"));
+            }
+            Some(MsgVerdict { out, fails, class: "", n_limits: 1, n_truncated: n_tr, n_err, n_full, kind: "badrec.resp", len: 0 })
         }
         ["rt", hx] => {
             let bytes = unhex(hx)?;
             let m = Message::from_vec(&bytes).ok()?;
             let mut class = "";
+            // `CERT::try_from(&[u8])`, the other public entry point to the CERT decoder
+            for r in m.answers.iter().chain(&m.authorities).chain(&m.additionals) {
+                typed_views(r, &mut fails);
+                if let RData::CERT(c) = &r.data {
+                    let mut rd = vec![];
+                    if c.emit(&mut BinEncoder::new(&mut rd)).is_ok() && hickory_proto::rr::rdata::CERT::try_from(&rd[..]).ok().as_ref() != Some(c) {
+                        fails.push(format!("CERT::try_from on the RDATA {} does not give the decoded value back", hex(&rd)));
+                    }
+                }
+            }
+            // the other encoders of an EDNS option value (`Vec<u8>: TryFrom<&EdnsOption>`, `EdnsCode:
+            // From<&EdnsOption>`, `EdnsOption::len`) agree with `EdnsOption::emit` and the stored code
+            if let Some(e) = &m.edns {
+                use hickory_proto::rr::rdata::opt::EdnsCode;
+                for (code, opt) in e.options().as_ref().iter() {
+                    let mut direct = vec![];
+                    let r = opt.emit(&mut BinEncoder::new(&mut direct));
+                    match Vec::<u8>::try_from(opt) {
+                        Ok(v) if r.is_ok() && v == direct && v.len() == opt.len() as usize => {}
+                        other => fails.push(format!("EDNS option {}: Vec::<u8>::try_from gives {:?}, emit wrote {} (ok {}), len() = {}", u16::from(*code), other.map(|v| hex(&v)), hex(&direct), r.is_ok(), opt.len())),
+                    }
+                    if EdnsCode::from(opt) != *code {
+                        fails.push(format!("EDNS option stored under code {} reports code {}", u16::from(*code), u16::from(EdnsCode::from(opt))));
+                    }
+                }
+            }
             let (out, n_err) = match m.to_vec() {
                 Ok(b) => {
                     let mut d = BinDecoder::new(&b);
@@ -597,6 +1053,24 @@ pub fn run_line(t: &[&str]) -> Option<MsgVerdict> {
                         }
                         fails.push(format!("assembled message decodes, after encoding, to a different message: {}", &dump[..dump.len().min(400)]));
                     }
+                    // the accessors over the decoded message, and `Message::read_queries` (the other entry
+                    // point to the question section), agree with its fields
+                    let n = m.answers.len() + m.authorities.len() + m.additionals.len();
+                    let mut m2 = m.clone();
+                    if m.all_sections().count() != n || m2.take_all_sections().count() != n || !(m2.answers.is_empty() && m2.authorities.is_empty() && m2.additionals.is_empty()) {
+                        fails.push("all_sections / take_all_sections disagree with the three sections".into());
+                    }
+                    if m.max_payload() != m.edns.as_ref().map_or(512, |e| e.max_payload().max(512)) || m.version() != m.edns.as_ref().map_or(0, |e| e.version()) {
+                        fails.push("Message::max_payload / version disagree with the Edns".into());
+                    }
+                    if m.signature().is_some() != m.signature.is_some() || m2.take_signature().map(|b| *b) != m.signature.as_deref().cloned() || m2.signature.is_some() {
+                        fails.push("Message::signature / take_signature disagree with the field".into());
+                    }
+                    let mut d = BinDecoder::new(&bytes);
+                    let qs = Header::read(&mut d).ok().and_then(|h| Message::read_queries(&mut d, h.counts.queries as usize).ok());
+                    if qs.as_ref() != Some(&m.queries) {
+                        fails.push("Message::read_queries disagrees with Message::read on the question section".into());
+                    }
                 }
                 Err(e) => fails.push(format!("assembled message does not decode after encoding: {e}")),
             }
@@ -643,6 +1117,11 @@ pub fn exec(line: &str, rec: &mut Recorder, nontrivial: impl Fn(&MsgVerdict) -> 
             rec.stat_n("outcome.truncated", v.n_truncated as u64);
             rec.stat_n("outcome.complete", v.n_full as u64);
             rec.stat_n("outcome.err", v.n_err as u64);
+            if ["cat", "badrec", "badrec.resp", "respb"].contains(&v.kind) {
+                rec.stat_n(&format!("outcome.{}.truncated", v.kind), v.n_truncated as u64);
+                rec.stat_n(&format!("outcome.{}.complete", v.kind), v.n_full as u64);
+                rec.stat_n(&format!("outcome.{}.err-or-servfail", v.kind), v.n_err as u64);
+            }
             rec.stat(match v.len {
                 0..=99 => "msg.len<100",
                 100..=511 => "msg.len100-511",
